@@ -243,3 +243,46 @@ func decode2Keep(level spec.Level, s string, nilRecv bool) (obj2, error) {
 	}
 	return o, err
 }
+
+// decode3Pre / decode2Pre: the decoder comes from the constructor and every observer of every
+// view of it (scores, severities, validity, encodings, accessors) is called once before its
+// single Decode. What the decoded object then answers is the business of the calling check.
+func decode3Pre(level spec.Level, s string) (obj3, error) {
+	o := obj3{level: level}
+	var err error
+	switch level {
+	case spec.Base:
+		r := m3.NewBase()
+		snapViews(views3(r, nil, nil, level))
+		o.B, err = r.Decode(s)
+	case spec.Temporal:
+		r := m3.NewTemporal()
+		snapViews(views3(nil, r, nil, level))
+		o.T, err = r.Decode(s)
+	default:
+		r := m3.NewEnvironmental()
+		snapViews(views3(nil, nil, r, level))
+		o.E, err = r.Decode(s)
+	}
+	return o.refreshed(), err
+}
+
+func decode2Pre(level spec.Level, s string) (obj2, error) {
+	o := obj2{level: level}
+	var err error
+	switch level {
+	case spec.Base:
+		r := m2.NewBase()
+		snapViews(views2(r, nil, nil, level))
+		o.B, err = r.Decode(s)
+	case spec.Temporal:
+		r := m2.NewTemporal()
+		snapViews(views2(nil, r, nil, level))
+		o.T, err = r.Decode(s)
+	default:
+		r := m2.NewEnvironmental()
+		snapViews(views2(nil, nil, r, level))
+		o.E, err = r.Decode(s)
+	}
+	return o.refreshed(), err
+}
